@@ -338,9 +338,10 @@ func (kv *kv) put(name string, value []byte) (api.SecretVersion, error) {
 	}
 
 	// If the new value is the same as the current latest version, don't store a
-	// new copy.
+	// new copy. The latest version may have been deleted, in which case there
+	// is nothing to compare with and we must store the value.
 	bsValue := byteString(value)
-	if s.Versions[s.LatestVersion] == bsValue {
+	if cur, ok := s.Versions[s.LatestVersion]; ok && cur == bsValue {
 		return s.LatestVersion, nil
 	}
 
